@@ -18,56 +18,71 @@ def _sset(xs):
 ALLKINDS = ['add', 'remove', 'replace', 'move', 'copy', 'test']
 
 
-def A_patch(name, seeds, opts, vals, vals2, maxops, kinds=ALLKINDS, wide=1, respell=False, exhaustive=True,
-            simulate=None, timeout=3000, extra_opt='', invariants=('DocOK', 'CopyBound', 'LimitZeroNeverFails'),
-            properties=('OnlyCopyCounts', 'FirstFailureWins', 'NoOpSteps')):
-    """Direction A on MCPatch: TLC enumerates (or simulates) behaviours, every transition is replayed."""
+def run_A(ctx, module, name, consts, invariants=(), properties=(), simulate=None, timeout=3000, respell=False,
+          extra_opt='', exhaustive=True, spec='MCSpec', workers=16, constraint=None):
+    """Direction A: TLC enumerates (or simulates) behaviours of <module>, every printed transition is replayed."""
+    cfg = ctx.write_cfg('run_' + name, spec, consts, invariants=invariants,
+                        properties=() if simulate else properties, action_constraint='Emit', constraint=constraint)
+    extra = []
+    if simulate:
+        extra = ['-simulate', 'num=%d' % simulate['num'], '-depth', str(simulate['depth']), '-seed', str(ctx.seed)]
+        ctx.exhaustive = False
+        workers = simulate.get('workers', 8)
+    if not exhaustive:
+        ctx.exhaustive = False
+    tlc = ctx.tlc_cmd(module, cfg, workers=workers, extra=extra)
+    replay = ctx.build('replay')
+    tlclog = os.path.join(ctx.scratch, 'tlc_%s.log' % name)
+    rargs = [replay, '-prop', ctx.prop, '-seed', str(ctx.seed), '-findings', FINDINGS, '-replays', REPLAYS, '-tlclog', tlclog]
+    if respell:
+        rargs.append('-respell')
+    if extra_opt:
+        rargs += ['-opt', extra_opt]
+    t0 = time.time()
+    p1 = subprocess.Popen(['timeout', str(timeout)] + tlc, cwd=ctx.specdir(), env=ctx.env,
+                          stdout=subprocess.PIPE, stderr=subprocess.STDOUT)
+    p2 = subprocess.Popen(rargs, stdin=p1.stdout, stdout=subprocess.PIPE, stderr=subprocess.PIPE, text=True, env=ctx.env)
+    p1.stdout.close()
+    out, err = p2.communicate()
+    rc1 = p1.wait()
+    if p2.returncode not in (0, 1, 3):
+        raise Broken('stage %s: replayer failed (exit %d): %s' % (name, p2.returncode, err[-2000:]))
+    log = open(tlclog).read() if os.path.exists(tlclog) else ''
+    summ = ctx.absorb_summary(out, name)
+    if p2.returncode == 3:       # a hang was reported; TLC's statistics are incomplete
+        ctx.cov['stages'].append({'stage': name, 'hang': True})
+        return
+    if rc1 == 124:
+        raise Broken('stage %s: TLC timed out after %ds' % (name, timeout))
+    gen, dist = ctx.parse_tlc_log(log, name)
+    ctx.cov['states'] += dist
+    ctx.cov['transitions'] += summ['counters'].get('transitions', 0)
+    ctx.cov['traces_validated_against_impl'] += summ['counters'].get('transitions', 0)
+    ctx.cov['stages'].append({'stage': name, 'module': module, 'direction': 'A (TLC behaviours replayed into the code)',
+                              'tlc_states_generated': gen, 'tlc_distinct_states': dist,
+                              'transitions_replayed': summ['counters'].get('transitions', 0),
+                              'executions_of_real_code': summ['counters'].get('executions', 0),
+                              'constants': consts, 'invariants': list(invariants), 'properties': list(properties),
+                              'mode': 'simulate' if simulate else 'exhaustive', 'wall_s': round(time.time() - t0, 1)})
+
+
+def A_patch(name, seeds, opts, vals, vals2, maxops, kinds=ALLKINDS, wide=1, invariants=(), properties=(), **kw):
     def run(ctx):
         consts = {'SeedIds': _set(seeds), 'OptIds': _set(opts), 'ValIds': _set(vals), 'ValIds2': _set(vals2),
                   'MaxOps': maxops, 'OpKinds': _sset(kinds), 'WideDepth': wide, 'EmitOn': 'TRUE'}
-        cfg = ctx.write_cfg('run_' + name, 'MCSpec', consts, invariants=invariants,
-                            properties=() if simulate else properties, action_constraint='Emit')
-        extra = []
-        if simulate:
-            extra = ['-simulate', 'num=%d' % simulate['num'], '-depth', str(simulate['depth']), '-seed', str(ctx.seed)]
-            ctx.exhaustive = False
-        if not exhaustive:
-            ctx.exhaustive = False
-        tlc = ctx.tlc_cmd('MCPatch', cfg, workers=16 if not simulate else simulate.get('workers', 8), extra=extra)
-        replay = ctx.build('replay')
-        tlclog = os.path.join(ctx.scratch, 'tlc_%s.log' % name)
-        rargs = [replay, '-prop', ctx.prop, '-seed', str(ctx.seed), '-findings', FINDINGS, '-replays', REPLAYS,
-                 '-tlclog', tlclog]
-        if respell:
-            rargs.append('-respell')
-        if extra_opt:
-            rargs += ['-opt', extra_opt]
-        t0 = time.time()
-        p1 = subprocess.Popen(['timeout', str(timeout)] + tlc, cwd=ctx.specdir(), env=ctx.env,
-                              stdout=subprocess.PIPE, stderr=subprocess.STDOUT)
-        p2 = subprocess.Popen(rargs, stdin=p1.stdout, stdout=subprocess.PIPE, stderr=subprocess.PIPE, text=True, env=ctx.env)
-        p1.stdout.close()
-        out, err = p2.communicate()
-        rc1 = p1.wait()
-        if p2.returncode not in (0, 1, 3):
-            raise Broken('stage %s: replayer failed (exit %d): %s' % (name, p2.returncode, err[-2000:]))
-        log = open(tlclog).read() if os.path.exists(tlclog) else ''
-        summ = ctx.absorb_summary(out, name)
-        if p2.returncode == 3:       # a hang was reported; TLC's statistics are incomplete
-            ctx.cov['stages'].append({'stage': name, 'hang': True})
-            return
-        if rc1 == 124:
-            raise Broken('stage %s: TLC timed out after %ds' % (name, timeout))
-        gen, dist = ctx.parse_tlc_log(log, name)
-        ctx.cov['states'] += dist
-        ctx.cov['transitions'] += summ['counters'].get('transitions', 0)
-        ctx.cov['traces_validated_against_impl'] += summ['counters'].get('transitions', 0)
-        ctx.cov['stages'].append({'stage': name, 'direction': 'A (TLC behaviours replayed into the code)',
-                                  'tlc_states_generated': gen, 'tlc_distinct_states': dist,
-                                  'transitions_replayed': summ['counters'].get('transitions', 0),
-                                  'executions_of_real_code': summ['counters'].get('executions', 0),
-                                  'constants': consts, 'mode': 'simulate' if simulate else 'exhaustive',
-                                  'wall_s': round(time.time() - t0, 1)})
+        run_A(ctx, 'MCPatch', name, consts, invariants=invariants, properties=properties, **kw)
+    return run
+
+
+M_INV = ('ComposeLaw', 'DiffLaws', 'DiffArrLaws')
+M_PROPS = ('Wholesale', 'Idempotent', 'NoNullFromPatch', 'RefOrderOK')
+
+
+def A_merge(name, mode, doclevel, patchlevel, maxops, parts=1, part=0, **kw):
+    def run(ctx):
+        consts = {'Mode': '"%s"' % mode, 'DocLevel': doclevel, 'PatchLevel': patchlevel, 'MaxOps': maxops,
+                  'EmitOn': 'TRUE', 'Part': part if part is not None else ctx.seed % parts, 'Parts': parts}
+        run_A(ctx, 'MCMerge', name, consts, invariants=M_INV, properties=M_PROPS, spec='MSpec', **kw)
     return run
 
 
@@ -114,8 +129,10 @@ PLANS = {
                        'RemoveAbsentMember', 'MoveFromRoot']),
     'C05': P(
         [AP('d1', S_ALL, [1], V_ALL, [1, 2, 9], 1),
-         AP('d2', [5, 10], [1], [1, 2, 6, 8, 9], [1, 2, 9], 2)],
+         AP('d2', [5, 10], [1], [1, 2, 6, 8, 9], [1, 2, 9], 2),
+         A_merge('mo', 'merge', 2, 2, 1)],
         [AP('d1', S_ALL, [1, 2, 8], V_ALL, [1, 2, 9], 1),
+         A_merge('mo', 'merge', 3, 2, 1, timeout=9000), A_merge('mo2', 'merge', 1, 2, 2, timeout=9000),
          AP('d2', [1, 3, 4, 5, 6, 10, 11], [1], V_ALL, [1, 2, 6, 8, 9], 2, timeout=9000),
          AP('d3', [8, 10], [1], [1, 2, 6], [1, 6], 3, kinds=['add', 'remove', 'replace', 'move', 'copy'], timeout=9000)],
         'the ORDERED, literal-exact form of the output (member order and number literals significant) is compared with the '
@@ -178,6 +195,48 @@ PLANS = {
         ['TestPass', 'TestNoOpPairs', 'Copy', 'AddMember'],
         ['byte-identity clauses are checked on canonically spelled inputs (spelled as spec/JsonEnc.tla Enc(v, FALSE))']),
 }
+
+
+MERGE_ASSUME = [
+    'bounded universe of spec/MCMerge.tla: keys a b c, leaves null 1 1.0 "x" and 23-digit integers, arrays of <= 2, nesting <= 3 '
+    '(levels Small=12, Mid=324, Top~1000 values); exhaustive over the stated levels',
+    'the independent JSON reader of harness/jsonread is the projection',
+]
+
+
+def MPLAN(quick, thorough, rule, labels):
+    return {'quick': quick, 'thorough': thorough, 'rule': rule, 'exhaustive': True, 'assumptions': MERGE_ASSUME,
+            'required_labels': {'quick': labels, 'thorough': labels}}
+
+
+PLANS.update({
+    'C02': MPLAN(
+        [A_merge('m1', 'merge', 3, 2, 1, respell=True)],
+        [A_merge('m1', 'merge', 3, 2, 1, respell=True, timeout=9000), A_merge('m1b', 'merge', 2, 3, 1, respell=True, timeout=9000),
+         A_merge('m2', 'merge', 1, 2, 2, timeout=9000)],
+        'TLC enumerates every (document, patch) pair of the bounded universe (any root type except a null document), computes RFC 7396 '
+        'MP(document, patch) and checks idempotence / wholesale replacement on the specification; the real MergePatch is run on both '
+        'texts (canonical and re-spelled, with surrounding white space) and its output compared structurally; literal patches must come '
+        'back verbatim, array patches unedited; distinct_nontrivial counts pairs whose result differs from the document',
+        ['Merge_obj', 'Merge_arr', 'Merge_null', 'Merge_num', 'Merge_str']),
+    'C03': MPLAN(
+        [A_merge('df', 'diff', 3, 2, 1, respell=True)],
+        [A_merge('df', 'diff', 3, 2, 1, respell=True, timeout=9000), A_merge('dfb', 'diff', 2, 3, 1, respell=True, timeout=9000)],
+        'TLC enumerates every pair (A, B) of the bounded universe, classifies it (objects / arrays of objects of equal length / rejected), '
+        'computes the minimal patch Diff(A, B) and checks round trip, minimality and "{} iff equal" on the specification '
+        '(IsMinimalPatch states the clauses of the property one by one); the real CreateMergePatch must reject or succeed accordingly, '
+        'its patch must equal Diff(A, B) structurally with B\'s literals, and the real MergePatch(A, patch) must give B when B has no '
+        'null member; distinct_nontrivial counts accepted pairs',
+        ['Create_obj', 'Create_arr', 'Create_reject', 'RoundTrip']),
+    'C07': MPLAN(
+        [A_merge('cp', 'merge', 1, 2, 2, parts=4, part=None)],
+        [A_merge('cp', 'merge', 1, 2, 2, timeout=9000), A_merge('cp2', 'merge', 2, 1, 2, timeout=9000)],
+        'TLC enumerates triples (D, P1, P2), checks the composition law MP(MP(D,P1),P2) = MP(D, Compose(P1,P2)) for every compatible pair on '
+        'the specification; for every compatible pair the real MergeMergePatches(P1,P2) is applied to D with the real MergePatch and must '
+        'give the sequential result, and the combined patch must equal Compose(P1,P2) structurally (it is unique up to member order); '
+        'the quick tier explores one quarter of the documents, selected by VERIF_SEED',
+        ['ComposeCompatible', 'Merge_obj', 'Merge_null']),
+})
 
 
 def replay_file(ctx, plan, path):
